@@ -499,3 +499,85 @@ func runC11(w *c11World) error {
 	}
 	return nil
 }
+
+// TestC11SingleWriterPerTransport: while messages and frames flow to slow custom transports, the read
+// side of a transport fails now and then (the channel is replaced by a fresh one on the same transport).
+// At no time may two Write calls be in progress on one transport, and every completed write must be one whole frame.
+func TestC11SingleWriterPerTransport(t *testing.T) {
+	rec := evid.New(t, "C11", "2..3 slow custom transports (each Write stays in progress 50-400us) under a steady load of WriteMessageAll/WriteFrameAll while read errors are injected at generated moments so that channels are replaced on the same transport; oracle: no Write call ever begins while another one is in progress on the same transport (frames would interleave on a byte stream), every completed write is exactly one whole frame; non-trivial = at least one channel was replaced while writes were in flight; distinct by hash of the parameters")
+	rec.Require("channel-replaced-under-load")
+	evid.Check(t, rec, evid.N(40, 200), func(t *rapid.T) {
+		nch := rapid.IntRange(2, 3).Draw(t, "nch")
+		delay := time.Duration(rapid.IntRange(50, 400).Draw(t, "write_delay_us")) * time.Microsecond
+		flaps := rapid.IntRange(1, 5).Draw(t, "flaps")
+		gap := time.Duration(rapid.IntRange(200, 3000).Draw(t, "gap_us")) * time.Microsecond
+		desc := fmt.Sprintf("transports=%d writeDelay=%v readFaults=%d gap=%v", nch, delay, flaps, gap)
+		pipes := make([]*sim.Pipe, nch)
+		var endpoints []gomavlib.EndpointConf
+		for i := range pipes {
+			pipes[i] = sim.NewPipe()
+			pipes[i].SetWriteDelay(delay)
+			endpoints = append(endpoints, gomavlib.EndpointCustom{ReadWriteCloser: pipes[i]})
+		}
+		n := &gomavlib.Node{Endpoints: endpoints, Dialect: ardupilotmega.Dialect, OutVersion: gomavlib.V2, OutSystemID: nodeSys, HeartbeatDisable: true}
+		if err := n.Initialize(); err != nil {
+			t.Fatalf("BROKEN: %v", err)
+		}
+		r := sim.StartRecorder(n, sim.Pacing{Kind: "fast"}, nil)
+		stop := make(chan struct{})
+		var wg sync.WaitGroup
+		wg.Add(1)
+		go func() {
+			defer wg.Done()
+			for k := 0; ; k++ {
+				select {
+				case <-stop:
+					return
+				default:
+				}
+				if k%2 == 0 {
+					n.WriteMessageAll(&common.MessageDebug{TimeBootMs: uint32(k), Ind: 1}) //nolint:errcheck
+				} else {
+					fr, _ := fwdFrame(1, k, true, k%4 == 1)
+					n.WriteFrameAll(fr) //nolint:errcheck
+				}
+				time.Sleep(30 * time.Microsecond)
+			}
+		}()
+		for k := 0; k < flaps; k++ {
+			time.Sleep(gap)
+			p := pipes[k%nch]
+			p.FailReads(fmt.Errorf("injected read error %d", k))
+			time.Sleep(300 * time.Microsecond)
+			p.ClearReadError()
+		}
+		time.Sleep(gap)
+		close(stop)
+		wg.Wait()
+		closeNode(n, bound) //nolint:errcheck
+		r.WaitClosed(bound)
+		replaced := 0
+		for _, e := range r.Snapshot() {
+			if _, ok := e.Ev.(*gomavlib.EventChannelClose); ok {
+				replaced++
+			}
+		}
+		for i, p := range pipes {
+			if o := p.Overlaps(); o > 0 {
+				evid.ReplayNote("C11", "TestC11SingleWriterPerTransport", fmt.Sprintf("%s: %d overlapping writes on transport %d", desc, o, i))
+				t.Fatalf("%s: on transport %d a Write call began %d time(s) while another Write was still in progress: two writers on one link, frames can interleave", desc, i, o)
+			}
+			for k, b := range p.Writes() {
+				if _, nb, err := ref.Parse(b); err != nil || nb != len(b) {
+					t.Fatalf("%s: transport %d write %d is not one whole frame: %x", desc, i, k, b)
+				}
+			}
+		}
+		var cls []string
+		if replaced > 0 {
+			cls = append(cls, "channel-replaced-under-load")
+		}
+		rec.Case(replaced > 0, evid.HashS(desc), cls...)
+		rec.Sample("flap", desc)
+	})
+}
